@@ -14,6 +14,7 @@ package main
 import (
 	stdjson "encoding/json"
 	"fmt"
+	"math"
 	"strings"
 
 	"github.com/segmentio/encoding/ascii"
@@ -228,6 +229,12 @@ func c20Extra(c *Ctx) {
 		b := byte(i)
 		c20Check(c, "ValidByte", []byte{b}, nil, 0, b < 0x80, func() bool { return ascii.ValidByte(b) })
 		c20Check(c, "ValidPrintByte", []byte{b}, nil, 0, b >= 0x20 && b <= 0x7e, func() bool { return ascii.ValidPrintByte(b) })
+	}
+	// ValidPrintRune is a range test: no negative value is in the range, whatever its low byte is (ValidRune is only
+	// asked about code points: negative runes are not runes)
+	for _, rr := range []rune{-1, -0xbf, -0x100 + 0x41, math.MinInt32, math.MinInt32 + 0x41, math.MinInt32 + 0x7e, -0x80, -0x7f, -0x20, 0x100 + 0x41, 0x10000 + 0x20, 0x7fffff41} {
+		r := rr
+		c20Check(c, "ValidPrintRune", []byte(fmt.Sprint(r)), nil, 0, r >= 0x20 && r <= 0x7e, func() bool { return ascii.ValidPrintRune(r) })
 	}
 	for _, r := range []rune{0, 0x1f, 0x20, 0x7e, 0x7f, 0x80, 0xff, 0x100, 0x20ac, 0xd800, 0x10ffff} { // code points only: negative runes are not runes
 		rr := r
